@@ -261,12 +261,18 @@ def render(cfg, r=None, style="canon"):
         return f"(unit {cfg['pt']})"
     if style == "default":
         return via_default(render_(cfg, r, "canon"), None)
+    if style == "minimal":
+        return DEFAULT_CALLS.sub("", render_(cfg, r, "canon"))
     e = render_(cfg, r, style)
     if r is not None and style != "canon" and r.random() < 0.25:
         e = via_default(e, r)
     return e
 
 
+# calls that set a field to the value a fresh builder already has: a caller who wants the default does
+# not make them ("minimal" style), so the defaults themselves are exercised
+DEFAULT_CALLS = re.compile(r" \((?:padding|subtype|ntp|rtp|packet_count|octet_count|count|sender_ssrc|media_ssrc|payload_type|fl|cl|esn|jit|lsr|dlsr) 0\)"
+                           r"| \(data -\)| \(native_data - 0\)")
 VIA_DEFAULT = re.compile(r"\((nack|fir|rpsi|sdes|compound)(?=[ )])(?! \(via_default\))")
 
 
